@@ -184,7 +184,10 @@ def r05_5(ctx):
 
 
 def rules(ctx):
-    return [r05_1, r05_2, r05_3, r05_4, r05_5, c01.r01_1, c11.r11_3]
+    from ..engine import only
+    return [r05_1, r05_2, r05_3, r05_4, r05_5,
+            only(c01.r01_1, lambda k: k.startswith(("component predicate", "the Fragment name")), "component vs element host decides prop-style vs directive-style v-model"),
+            only(c11.r11_3, lambda k: "visit_mut_jsx_opening_element" in k or "decouple" in k or k.startswith("scan"), "v-models expansion keeps order and position")]
 
 
 EXPLANATION = (
